@@ -18,9 +18,16 @@ if "numpy" in MASK:
     MASK.add("jax")
 
 
+import os  # noqa: E402
+
+BROKEN = os.environ.get("VERIF_MASK_MODE") == "importerror"   # installed but broken: a plain ImportError (missing shared library, ...)
+
+
 class _Finder(importlib.abc.MetaPathFinder):
     def find_spec(self, name, path, target=None):  # noqa: ANN001, ANN201
         if name.split(".")[0] in MASK:
+            if BROKEN:
+                raise ImportError(f"cannot import {name!r}: libsomething.so: cannot open shared object file (masked)")
             raise ModuleNotFoundError(f"No module named {name!r} (masked)", name=name)
         return None
 
